@@ -308,6 +308,25 @@ MULT = [0.0, 1e-30, 1e-12, 1e-6, 1e-3, 0.1, 0.25, 0.5, 0.9, 0.99, 0.999, 1 - 2.0
         1 + 2.0 ** -20, 1.001, 1.01, 1.1, 2.0, 4.0, 10.0, 1e3, 1e6, 1e12]
 
 
+def sweep_mults(dtn, s0):
+    """s0 * (1 +- 2^-k), k = 1 .. mantissa bits, plus s0 itself"""
+    bits = 23 if dtn == "float32" else 52
+    out = [s0]
+    for k in range(1, bits + 1):
+        out += [s0 * (1 + 2.0 ** -k), s0 * (1 - 2.0 ** -k)]
+    return out
+
+
+def lin_sweep(spec):
+    """evenly spaced inputs across the kernel's whole working range: x = s0 * j/8, j = 0..80; Tolerant (a/|b| = 50
+    in these cases): u = (x-a)/b from 50 down to -60 in steps of 1/2"""
+    if spec["kind"] == "tolerant":
+        a, b = spec["p"][0], spec["p"][1]
+        return [max(0.0, a + abs(b) * (t / 2.0)) for t in range(-100, 121)]
+    s0 = own_scale(spec)
+    return [s0 * j / 8.0 for j in range(0, 81)]
+
+
 def kernel_inputs(case):
     """deterministic tensor of non-negative inputs for a kernel case"""
     rng = random.Random(case["data_seed"])
@@ -315,6 +334,11 @@ def kernel_inputs(case):
     n = int(math.prod(case["shape"]))
     s0 = own_scale(spec)
     eps = common.EPS[dtn]
+    if case.get("linsweep"):
+        return torch.tensor(lin_sweep(spec), dtype=DT[dtn])
+    if case.get("sweep"):
+        # geometric sweep of the distance to the kernel's own scale (Huber: its branch point), both sides
+        return torch.tensor(sweep_mults(dtn, s0), dtype=DT[dtn])
     vals = []
     for _ in range(n):
         c = rng.random()
@@ -530,9 +554,14 @@ def corrector_data(case):
     spec = case["spec"]
     s0 = math.sqrt(own_scale(spec)) if spec["kind"] != "poly" else case.get("xref", 1.0) ** 0.5
     rows = []
+    sw = sweep_mults(dtn, 1.0) if case.get("sweep") else None
+    if case.get("linsweep"):
+        sw = [v / own_scale(spec) for v in lin_sweep(spec)]
     for i in range(N):
         c = rng.random()
         nv = rng.choice(NORMS) * (s0 if rng.random() < 0.7 else 1.0)
+        if sw is not None:
+            c, nv = 1.0, s0 * math.sqrt(sw[(i + case.get("sweep_off", 0)) % len(sw)])
         if dtn == "float32" and nv != 0.0:
             nv = min(max(nv, 1e-15), 1e12)
         if "norm_cap" in case and nv > case["norm_cap"] * s0:
@@ -680,32 +709,33 @@ def corrector_oracles(ctx: Ctx, case, R, J, Rc, Jc):
                 E[i] = math.sqrt(float(g1[i])) * al * np.abs(Rn[i])[:, None] * (np.abs(Rn[i]) @ np.abs(Jn[i]))[None, :] / x
     floorR = SQRT_TINY[dtn] * np.abs(Rn)
     floorJ = SQRT_TINY[dtn] * np.abs(Jn)
-    # gradient law
-    G = np.einsum("iap,ia->p", Jcn, Rcn)
-    Gw = np.einsum("i,iap,ia->p", g1, Jn, Rn)
-    Gs = (np.einsum("i,iap,ia->p", ampv, np.abs(Jcn) + E + floorJ, np.abs(Rcn) + floorR)
-          + np.einsum("i,i,iap,ia->p", ampv, g1, np.abs(Jn), np.abs(Rn)))
+    # gradient law — per item (sharper than, and implying, the summed statement of the property)
+    G = np.einsum("iap,ia->ip", Jcn, Rcn)
+    Gw = g1[:, None] * np.einsum("iap,ia->ip", Jn, Rn)
+    Gs = ampv[:, None] * (np.einsum("iap,ia->ip", np.abs(Jcn) + E + floorJ, np.abs(Rcn) + floorR)
+                          + g1[:, None] * np.einsum("iap,ia->ip", np.abs(Jn), np.abs(Rn)))
     tol = TOLK * eps * Gs + 16 * TINY[dtn]
-    if (np.abs(G - Gw) > tol).any():
-        l = int(np.argmax(np.abs(G - Gw) - tol))
-        cfail(ctx, case, f"grad-law: {case['which']}({spec['kind']}{spec['p']}) J'^T R' != sum rho' J^T R: component {l}: "
-                       f"{float(G[l])!r} vs {float(Gw[l])!r} (tol {float(tol[l]):.3e}; dtype {dtn}, N={N}, d={d}, masked items {int(mask.sum())})")
-    # Hessian law
+    if N and (np.abs(G - Gw) > tol).any():
+        i, l = (int(v) for v in np.unravel_index(int(np.argmax(np.abs(G - Gw) - tol)), G.shape))
+        cfail(ctx, case, f"grad-law: {case['which']}({spec['kind']}{spec['p']}) J'^T R' != sum rho' J^T R: item {i} (|R_i|^2={float(xs[i])!r}) "
+                       f"component {l}: {float(G[i, l])!r} vs rho' J_i^T R_i = {float(Gw[i, l])!r} (tol {float(tol[i, l]):.3e}; dtype {dtn}, "
+                       f"N={N}, d={d}, masked items {int(mask.sum())})")
+    # Hessian law — per item
     JR = np.einsum("iap,ia->ip", Jn, Rn)
-    H = np.einsum("iap,iaq->pq", Jcn, Jcn)
+    H = np.einsum("iap,iaq->ipq", Jcn, Jcn)
     cur = 2 * g2 * mask if case["which"] == "triggs" else np.zeros(N, dtype=np.longdouble)
-    Hw = np.einsum("i,iap,iaq->pq", g1, Jn, Jn) + np.einsum("i,ip,iq->pq", cur, JR, JR)
+    Hw = g1[:, None, None] * np.einsum("iap,iaq->ipq", Jn, Jn) + cur[:, None, None] * np.einsum("ip,iq->ipq", JR, JR)
     JRa = np.einsum("iap,ia->ip", np.abs(Jn), np.abs(Rn))
     Ja = np.abs(Jcn) + E + floorJ
-    Hs = (np.einsum("i,iap,iaq->pq", ampv, Ja, Ja) + np.einsum("i,i,iap,iaq->pq", ampv, g1, np.abs(Jn), np.abs(Jn))
-          + np.einsum("i,i,ip,iq->pq", ampv, np.abs(cur), JRa, JRa))
+    Hs = ampv[:, None, None] * (np.einsum("iap,iaq->ipq", Ja, Ja) + g1[:, None, None] * np.einsum("iap,iaq->ipq", np.abs(Jn), np.abs(Jn))
+                                + np.abs(cur)[:, None, None] * np.einsum("ip,iq->ipq", JRa, JRa))
     tolh = TOLK * eps * Hs + 16 * TINY[dtn]
-    if (np.abs(H - Hw) > tolh).any():
-        idx = np.unravel_index(int(np.argmax(np.abs(H - Hw) - tolh)), H.shape)
+    if N and (np.abs(H - Hw) > tolh).any():
+        idx = tuple(int(v) for v in np.unravel_index(int(np.argmax(np.abs(H - Hw) - tolh)), H.shape))
         name = "hess-law" if case["which"] == "triggs" else "fast-hess-law"
         cfail(ctx, case, f"{name}: {case['which']}({spec['kind']}{spec['p']}) J'^T J' != sum rho' J^T J + 2 rho'' J^T R R^T J on the mask: "
-                       f"entry {tuple(int(v) for v in idx)}: {float(H[idx])!r} vs {float(Hw[idx])!r} (tol {float(tolh[idx]):.3e}; dtype {dtn}, "
-                       f"N={N}, d={d}, masked items {int(mask.sum())})")
+                       f"item {idx[0]} (|R_i|^2={float(xs[idx[0]])!r}, masked={bool(mask[idx[0]])}) entry {idx[1:]}: {float(H[idx])!r} vs "
+                       f"{float(Hw[idx])!r} (tol {float(tolh[idx]):.3e}; dtype {dtn}, N={N}, d={d})")
     case["_amp"] = [float(v) for v in ampv]
     case["_E"] = E.astype(np.float64)
     return mask
@@ -1145,6 +1175,33 @@ def gen_cases(ctx: Ctx, rng, scale=1.0):
             neg_cases.append({"stream": "negative", "spec": gen_spec(rng, kind), "dtype": rng.choice(["float64", "float32"]),
                               "shape": small_shape(rng, 3), "mode": rng.choice(["neg", "neg", "neg", "negzero", "clean"]),
                               "data_seed": rng.randrange(1 << 30)})
+    # branch-neighbourhood sweeps (deterministic part of every run): the Huber threshold from both sides at
+    # distances 2^-1 .. 2^-mantissa, in both dtypes, for the value (kernel stream) and the slope (corrector streams)
+    for dtn in ("float32", "float64"):
+        for dl in (1.0, rng.choice([0.5, 2.0, 0.1, 3.7, math.exp(rng.uniform(-3, 3))])):
+            spec = {"kind": "huber", "p": [dl, 0.0, 0.0]}
+            kernel_cases.append({"stream": "kernel", "spec": spec, "dtype": dtn, "shape": [2 * (23 if dtn == "float32" else 52) + 1],
+                                 "data_seed": rng.randrange(1 << 30), "sweep": True})
+            for which in ("fast", "triggs"):
+                nb = 2 * (23 if dtn == "float32" else 52) + 1
+                corr_cases.append({"stream": which, "which": which, "dtype": dtn, "batch": [nb], "d": rng.randint(1, 3),
+                                   "p": rng.randint(1, 2), "data_seed": rng.randrange(1 << 30), "nograd": rng.random() < 0.5,
+                                   "force_zero_row": False, "sweep": True, "spec": spec})
+    # evenly spaced sweeps over each kernel's working range (value), and over Tolerant's u = 50 .. -60 (slope, curvature)
+    for dtn in ("float32", "float64"):
+        for kind in BUILTIN:
+            spec = gen_spec(rng, kind)
+            if kind == "tolerant":
+                a = rng.choice([1.0, 5.0, 0.3, 50.0])
+                spec = {"kind": kind, "p": [a, -a / 50.0, 0.0]}
+            nl = len(lin_sweep(spec))
+            kernel_cases.append({"stream": "kernel", "spec": spec, "dtype": dtn, "shape": [nl], "data_seed": rng.randrange(1 << 30),
+                                 "linsweep": True})
+            if kind == "tolerant":
+                for which in ("fast", "triggs"):
+                    corr_cases.append({"stream": which, "which": which, "dtype": dtn, "batch": [nl], "d": rng.randint(1, 2), "p": 1,
+                                       "data_seed": rng.randrange(1 << 30), "nograd": rng.random() < 0.5, "force_zero_row": False,
+                                       "linsweep": True, "spec": spec})
     for which in ("fast", "triggs"):
         for kind in BUILTIN:
             spec_cases = []
